@@ -119,7 +119,8 @@ def AP(name, seeds, opts, vals, vals2, maxops, **kw):
 PLANS = {
     'C01': P(
         [AP('d1', S_ALL, [1, 2], V_ALL, [1, 2, 9], 1, respell=True),
-         AP('d2', [5, 6, 10], [1, 2], [1, 2, 6, 8, 9], [1, 2, 9], 2)],
+         AP('d2', [5, 6], [1, 2], [1, 2, 6, 8, 9], [1, 2, 9], 2),
+         AP('d2b', [10], [1], [1, 9], [1], 2)],
         [AP('d1', S_ALL, [1, 2], V_ALL, [1, 2, 9], 1, respell=True),
          AP('d2', [1, 2, 3, 4, 5, 6, 10, 11], [1, 2], V_ALL, [1, 2, 6, 8, 9], 2, timeout=9000),
          AP('d3', [8, 9], [1, 2], [1, 2, 6, 7, 9], [1, 6, 9], 3, timeout=9000)],
